@@ -149,7 +149,13 @@ fn cmd_core(a: &Args) -> i32 {
             "fill" => true,
             _ => exec_no % 2 == 0,
         };
+        if strat == "rwlock" && mode == Mode::Token {
+            panic!("strat=rwlock runs in FREE mode only (a parked lock holder would block the token holder)");
+        }
         let o = match (val.as_str(), use_fill) {
+            // the lock-based reference strategy under real parallelism
+            ("tp", _) if strat == "rwlock" => wl_core::run_exec::<Option<Tp<1>>, std::sync::RwLock<()>>(&p, &cfg),
+            ("arc", _) if strat == "rwlock" => wl_core::run_exec::<Option<std::sync::Arc<Payload>>, std::sync::RwLock<()>>(&p, &cfg),
             ("tp", false) => wl_core::run_exec::<Option<Tp<1>>, DefaultStrategy>(&p, &cfg),
             ("tp", true) => wl_core::run_exec::<Option<Tp<1>>, FillFastSlots>(&p, &cfg),
             ("arc", false) => wl_core::run_exec::<Option<std::sync::Arc<Payload>>, DefaultStrategy>(&p, &cfg),
@@ -753,7 +759,11 @@ fn cmd_access(a: &Args) -> i32 {
         let exec_no = shard * 10_000_000 + n + 1;
         let wseed = util::mix(seed.wrapping_mul(0x6000_000D), exec_no);
         let sseed = util::mix(wseed, 0x5EED);
-        let o = if exec_no % 2 == 0 {
+        let o = if mode == Mode::Free && exec_no % 5 == 0 {
+            // the lock-based reference strategy (real parallelism only; a parked lock holder would block the token holder)
+            runner::count("access.execs_rwlock", 1);
+            wl_access::run_exec::<std::sync::RwLock<()>>(wseed, sseed, mode, exec_no)
+        } else if exec_no % 2 == 0 {
             wl_access::run_exec::<FillFastSlots>(wseed, sseed, mode, exec_no)
         } else {
             wl_access::run_exec::<DefaultStrategy>(wseed, sseed, mode, exec_no)
